@@ -148,6 +148,12 @@ func wireUnion(t *rapid.T, o *WireOpts, depth int) ref.Schema {
 	if len(u.Branches) < 2 {
 		u.Branches = append(u.Branches, ref.Schema{Kind: "fixed", Name: o.name("fx"), Size: 2})
 	}
+	if rapid.IntRange(0, 3).Draw(t, "wideUnion") == 0 {
+		// many branches: the branch index no longer fits one byte of the varint
+		for n := rapid.IntRange(62, 80).Draw(t, "wideBranches"); n > 0; n-- {
+			u.Branches = append(u.Branches, ref.Schema{Kind: "fixed", Name: o.name("wf"), Size: 1 + n%2})
+		}
+	}
 	return u
 }
 
